@@ -369,6 +369,13 @@ def setitem(interp, st, base, idx, v, node=None):
     if isinstance(base, M.RecDictView):
         if not isinstance(idx, str):
             raise Outside("__dict__ store with non-constant name", node)
+        cref = M.find_class(interp, base.rec.cls, st)
+        r = M.class_attr(interp, cref, idx) if cref is not None else None
+        is_prop = isinstance(r, tuple) and ((r[0] == "property-lambda") or (hasattr(r[0], "is_property") and r[0].is_property))
+        if is_prop:
+            # the class defines a property of that name: a data descriptor, so attribute reads keep going to the property and the entry stored
+            # in the instance dictionary is only visible through __dict__ itself
+            return M.RecDictView(base.rec.with_field("__dict__:" + idx, v), base.node)
         return M.RecDictView(base.rec.with_field(idx, v), base.node)
     if isinstance(base, dict):
         if is_sym(idx) or (isinstance(idx, tuple) and any(is_sym(x) for x in idx)):
